@@ -313,6 +313,23 @@ def rule_e6(ctx):
     if not (isinstance(head, ast.Call) and isinstance(head.func, ast.Call) and call_name(head.func) == "safe"):
         raise Unrecognised("C19.E6", construct, f"pipeline does not start with safe(...)(): {src(head)[:60]}")
     ctx.ok("E6-pipeline", construct, "head safe(...)()", site(head), "first stage runs inside safe")
+    # order: a JSON derivation tree is recognised first, parsing the text is the fallback (documented: 'If an input is recognized as a
+    # valid derivation tree in JSON format, it is treated as such and not parsed')
+    def reaches(e, name, depth=0):
+        for x in ast.walk(e):
+            if isinstance(x, ast.Call) and call_name(x) == name:
+                return True
+            if isinstance(x, ast.Name) and depth < 2:
+                for d in ast.walk(fn):
+                    if isinstance(d, ast.FunctionDef) and d.name == x.id and d is not fn and reaches(d, name, depth + 1):
+                        return True
+        return False
+
+    head_json = reaches(head.func.args[0], "json.loads")
+    head_text = any(isinstance(x, ast.Attribute) and x.attr == "parse" for x in ast.walk(head.func.args[0]))
+    ctx.check(head_json and not head_text, "E6-json-first", construct, "JSON tree recognised before the text is parsed", site(head),
+              "the input is parsed as plain text first and only read as a JSON derivation tree if that fails: a tree file written by `isla parse` whose JSON text is itself a word of the "
+              "grammar is read back as a different tree", "JSON first, text as fallback")
     m = module_of(fn)
     dt = ctx.repo.module(DT, "C19.E6")
     hp = ctx.repo.module(HELPERS, "C19.E6")
